@@ -330,23 +330,23 @@ def rule_results(repo, rule, res_convs, sn, fc):
     # LinComb.val
     val = repo.fn(RT, "LinComb.val")
     s_ = val.params[0]
-    az = [c for c in ast.walk(val.node) if isinstance(c, ast.Call) and isinstance(c.func, ast.Attribute) and c.func.attr in ("assert_zero", "assert_eq")]
+    # the tie: some call forces  self - <the public wire>  to zero, whichever way it is spelled (assert_zero on the difference,
+    # assert_eq, a 0 * 0 = D constraint, guarded or not)
+    from .c16 import zero_asserted
+    az = [c for c in ast.walk(val.node) if isinstance(c, ast.Call) and zero_asserted(c) is not None]
     pubs = [c for c in ast.walk(val.node) if isinstance(c, ast.Call) and norm(c.func) == "PubVal"]
     ok = False
     if len(pubs) == 1 and norm(pubs[0].args[0]) == "%s.value" % s_ and az:
-        a = az[0]
         from ..flatten import resolve_locals as _rl
-        recv = _rl(val.node, a.func.value)          # locals holding the public wire / the difference are substituted
-        if a.func.attr == "assert_zero":
-            v = Valuer({s_: P.sym("s")})
-            try:
-                d = v._p(recv)
-                ok = d.is_zero()     # value term of (self - PubVal(self.value)) is identically 0 ...
-                ok = ok and "PubVal" in norm(recv) and s_ in [norm(x) for x in ast.walk(recv) if isinstance(x, ast.Name)]
-            except Exception:
-                ok = False
-        else:
-            ok = {norm(recv), norm(_rl(val.node, a.args[0]))} == {s_, norm(pubs[0])}
+        from ..poly import poly_of
+        ptxt = norm(pubs[0])
+        for a in az:
+            d = _rl(val.node, zero_asserted(a))          # locals holding the public wire / the difference are substituted
+            p = poly_of(d, {s_: P.sym("s"), ptxt: P.sym("o")}, strict=True)
+            if p is not None and (p == P.sym("s") - P.sym("o") or p == P.sym("o") - P.sym("s")):
+                ok = True
+                az = [a]
+                break
     rets = [n for n in ast.walk(val.node) if isinstance(n, ast.Return)]
     if ok and rets and norm(rets[0].value) == "%s.value" % s_:
         rule.ok(val.loc(), val.fq, norm(az[0]), "one public wire with the same value, constrained equal; returns the plain value")
